@@ -22,6 +22,7 @@ include!("c10_parts/render.rs");
 include!("c10_parts/shrink.rs");
 include!("c10_parts/run.rs");
 include!("c10_parts/sweep.rs");
+include!("c10_parts/binop.rs");
 
 // ---- hook H2 switch -------------------------------------------------------------------------------
 // `on`: /repo contains the H2 hook (koto_parser::verif, commit "verif hook H2"); `off`: the (K)
@@ -71,6 +72,12 @@ fn main() {
         }
         return;
     }
+    if args.has_flag("--binop-matrix") {
+        // development aid: which broken binary-operator layouts does the linked parser accept?
+        let mut rng = Rng::new(args.seed);
+        cx.binop_stream(&mut rng, 6000, true);
+        return;
+    }
     if let Some(p) = &args.replay {
         let v: serde_json::Value = serde_json::from_str(&std::fs::read_to_string(p).expect("replay file")).unwrap();
         cx.replay(&v);
@@ -95,6 +102,9 @@ fn main() {
 
     // 1b. match/switch arms at every indentation relative to their header, with trivia before them
     cx.arm_indent_stream(&mut rng, if thorough { 3000 } else { 400 });
+
+    // 1c. binary-operator chains broken over 2..5 lines in every bracketed context and outside brackets
+    cx.binop_stream(&mut rng, if thorough { 12000 } else { 1500 }, false);
 
     // 2. repository sources: cursor traces, trivia invariance, cut-off sweep
     cx.repo_sources(&mut rng, thorough);
